@@ -26,6 +26,7 @@ VERIF = os.path.dirname(os.path.dirname(os.path.abspath(__file__)))
 LEAN = os.path.join(VERIF, "lean")
 REPO = os.environ.get("VERIF_REPO", "/repo")
 DRIVER = os.path.join(LEAN, ".lake", "build", "bin", "driver")
+TABLES_INFO = {}
 ALLOWED_AXIOMS = {"propext", "Classical.choice", "Quot.sound"}
 GUARD = "SCECCODE_PYCSEP_VERIF"
 
@@ -106,6 +107,14 @@ def lean_build(extra_targets=()):
     fcntl.flock(lock, fcntl.LOCK_EX)
     try:
         t0 = time.time()
+        # source-derived tables: re-extract from the tree under test; lake rebuilds what depends on them
+        global TABLES_INFO
+        try:
+            from . import gen_tables
+            changed, problems, _ = gen_tables.regenerate(REPO, LEAN)
+            TABLES_INFO = dict(regenerated=changed, problems=problems)
+        except Exception as e:  # extraction failure is not a verdict; the correspondence decides
+            TABLES_INFO = dict(regenerated=False, problems=[f"gen_tables crashed: {e}"])
         rc, out = _run(["lake", "build", "PycsepVerif", "driver", *extra_targets], cwd=LEAN)
         return rc == 0, out, time.time() - t0
     finally:
@@ -142,10 +151,20 @@ def theorems_in(path):
     return out
 
 
+def property_modules(prop):
+    """Properties/Cxx.lean plus the table theorems Properties/Cxx_*.lean"""
+    d = os.path.join(LEAN, "PycsepVerif", "Properties")
+    mods = [f"PycsepVerif.Properties.{prop}"]
+    for f in sorted(os.listdir(d)) if os.path.isdir(d) else []:
+        if f.startswith(prop + "_") and f.endswith(".lean"):
+            mods.append("PycsepVerif.Properties." + f[:-5])
+    return mods
+
+
 def lean_files_of(prop):
-    """files whose text is grepped for forbidden constructs: everything the property file imports
+    """files whose text is grepped for forbidden constructs: everything the property files import
     inside the project (transitively)."""
-    seen, todo = [], [f"PycsepVerif.Properties.{prop}"]
+    seen, todo = [], property_modules(prop)
     while todo:
         mod = todo.pop()
         path = os.path.join(LEAN, *mod.split(".")) + ".lean"
@@ -164,7 +183,9 @@ def audit(prop, required):
     if not os.path.exists(pfile):
         return dict(ok=False, obligations=len(required), discharged=0, axioms=[], problems=[f"missing {pfile}"],
                     theorems=[])
-    names = theorems_in(pfile)
+    names = []
+    for mod in property_modules(prop):
+        names += theorems_in(os.path.join(LEAN, *mod.split(".")) + ".lean")
     for r in required:
         if r not in names:
             problems.append(f"required theorem {r} is missing from Properties/{prop}.lean")
@@ -177,7 +198,8 @@ def audit(prop, required):
     # `#print axioms` for every theorem of the property
     tmp = os.path.join(LEAN, ".lake", f"audit_{prop}_{os.getpid()}.lean")
     with open(tmp, "w") as f:
-        f.write(f"import PycsepVerif.Properties.{prop}\n")
+        for mod in property_modules(prop):
+            f.write(f"import {mod}\n")
         for n in names:
             f.write(f"#print axioms {n}\n")
     rc, out = _run(["lake", "env", "lean", tmp], cwd=LEAN)
@@ -205,7 +227,7 @@ def audit(prop, required):
 def leanchecker(prop):
     """thorough tier: independent re-check of the compiled property module (and everything it imports)"""
     t0 = time.time()
-    rc, out = _run(["lake", "env", "leanchecker", f"PycsepVerif.Properties.{prop}"], cwd=LEAN, timeout=3000)
+    rc, out = _run(["lake", "env", "leanchecker", *property_modules(prop)], cwd=LEAN, timeout=3000)
     return rc == 0, out[-1500:], time.time() - t0
 
 
@@ -371,7 +393,7 @@ def finish(run, aud, build_s, level_text, trusted, rule, checker_cmd):
             samples=run.samples, histogram=run.hist,
             model_impl_mismatches=len(run.mismatch_only),
             known_findings_seen={k_: v[1] for k_, v in run.known.items()},
-            lean_build_s=round(build_s, 2), **run.extra),
+            lean_build_s=round(build_s, 2), source_tables=TABLES_INFO, **run.extra),
         assumptions=run.assumptions,
         wall_s=round(time.time() - run.t0, 2),
         violations=len([l for l in lines if l.startswith("VIOLATION")]))
